@@ -14,6 +14,7 @@ import ast
 import itertools
 
 from ..absint import Hooks, Interp, Obj, State, Sym, TOP
+from ..callgraph import positional_args
 from ..core import META, Ctx, RuleResult, rule
 from ..model import AnalysisError, Func, norm_stmt, parent
 from ..pattern import C, G, V, add, call, match, norm
@@ -64,7 +65,8 @@ def c05_1(ctx: Ctx) -> RuleResult:
     # callers pass the configured realization weights and their own first/last options
     for g, c in ctx.cg.callers(f):
         t = X.at(g, c)
-        ok = len(t[2]) >= 5 and show(t[2][1]).endswith("realizations.weights") and show(t[2][3]).endswith(".first") and show(t[2][4]).endswith(".last")
+        pa_ = [a_ for a_ in positional_args(f, t)]
+        ok = len(pa_) >= 5 and all(a_ is not None for a_ in pa_[:5]) and show(pa_[1]).endswith("realizations.weights") and show(pa_[3]).endswith(".first") and show(pa_[4]).endswith(".last")
         res.add(g, c, "the kernel receives (values, config.realizations.weights, failed, options.first, options.last)", ok,
                 "" if ok else f"arguments are `{[show(a, 40) for a in t[2]]}`", construct=f"{g.name}: kernel arguments")
     # the ranking of successes and the failure flags (shared with C04.4, sort kernel only)
@@ -187,7 +189,7 @@ def c05_5(ctx: Ctx) -> RuleResult:
         for g, c in ctx.cg.callers(kern):
             if any("constraint" in p for p in g.params):
                 continue
-            key = X.at(g, c)[2][0]
+            key = positional_args(kern, X.at(g, c))[0]
             subs = [s for s in subterms(key) if s[0] == "sub" and contains(s[2], lambda y: y[0] == "attr" and y[2] == "sort")]
             sorts = {s[2][1][-1] if s[2][0] == "tuple" else s[2] for s in subs}
             has_dot = contains(key, lambda s: s[0] == "call" and s[1] == ("global", "numpy.dot"))
